@@ -190,7 +190,7 @@ func (descriptor *pmtDescriptor) DecodeIso639LanguageCode() string {
 }
 
 func (descriptor *pmtDescriptor) DecodeIso639AudioType() byte {
-	if len(descriptor.data) >= 4 {
+	if descriptor.tag == LANGUAGE && len(descriptor.data) >= 4 {
 		return descriptor.data[3]
 	}
 	return 0
